@@ -11,7 +11,7 @@ from vlib.gen import graphs as H
 
 PID = "C09"
 TITLE = "Shortest paths are valid edge paths of minimum length"
-LEAN_MODULES = ["Mouette.Props.C09", "Mouette.Props.C09PathMesh", "Mouette.Props.C09Bridge", "Mouette.Props.C09Source"]
+LEAN_MODULES = ["Mouette.Props.C09", "Mouette.Props.C09PathMesh", "Mouette.Props.C09Bridge", "Mouette.Props.C09Source", "Mouette.Props.C09Heap", "Mouette.Props.C09Forest"]
 REQUIRED_THEOREMS = ["reach_run", "run_terminates", "path_valid", "dijkstra_optimal", "dijkstra_optimal_one",
                      "reachable_iff_walk", "vertex_set_path_valid", "vertex_set_nearest", "popOK_firstMin",
                      "border_path_nearest", "border_none_iff", "build_path_spec", "path_mesh_segments_are_edges",
@@ -24,7 +24,15 @@ REQUIRED_THEOREMS = ["reach_run", "run_terminates", "path_valid", "dijkstra_opti
                      "bridge_vertexSet_full", "source_shortest_path_optimal", "shortest_path_targets_independent",
                      "source_vertex_set_nearest", "vertex_set_start_in_set", "source_export_segments_are_edges",
                      # round 5: the connectivity dict of dicts as written, adjacency of the point-to-point query
-                     "bridge_connBuild", "bridge_vertexSet_conn", "source_vertex_set_nearest_conn", "source_shortest_path_all_modes"]
+                     "bridge_connBuild", "bridge_vertexSet_conn", "source_vertex_set_nearest_conn", "source_shortest_path_all_modes",
+                     # round 6: the loops on the PriorityQueue class as translated (heapq binary heap), heap invariant in the loop invariant:
+                     # no hypothesis on the queue; duplicated targets / set(targets)
+                     "bridge_relaxH_sp", "bridge_relaxH_set", "bridge_stepH_sp", "bridge_stepH_set", "bridge_initH_sp", "bridge_initH_set",
+                     "heap_run_final", "heap_dijkstra_optimal", "shortestPath_heap_eq", "source_heap_shortest_path_optimal",
+                     "heap_unreachable_keyError", "source_heap_vertex_set_nearest", "bridge_connBuild_dups",
+                     "source_all_translated_vertex_set", "source_shortest_path_dict",
+                     # Euler-free forest facts of the predecessor table, packaged for C16 (Props/C09Forest.lean)
+                     "pred_forest_of_final", "dijkstra_pred_forest", "heap_pred_forest"]
 
 # every function / method defined in the files the property is anchored in (mouette/processing/paths.py,
 # mouette/utils/priority_queue.py): translated = a Generated definition is produced from that body on every run and a bridge
@@ -36,10 +44,10 @@ SOURCE_MAP = {
     "mouette/processing/paths.py::shortest_path_to_vertex_set": "translated",
     "mouette/processing/paths.py::shortest_path_to_border": "translated",
     "mouette/utils/priority_queue.py::PriorityItem.__lt__": "translated",
-    "mouette/utils/priority_queue.py::PriorityQueue.__init__": "modelled",
-    "mouette/utils/priority_queue.py::PriorityQueue.empty": "modelled",
-    "mouette/utils/priority_queue.py::PriorityQueue.get": "modelled",
-    "mouette/utils/priority_queue.py::PriorityQueue.push": "modelled",
+    "mouette/utils/priority_queue.py::PriorityQueue.__init__": "translated",
+    "mouette/utils/priority_queue.py::PriorityQueue.empty": "translated",
+    "mouette/utils/priority_queue.py::PriorityQueue.get": "translated",
+    "mouette/utils/priority_queue.py::PriorityQueue.push": "translated",
     "mouette/utils/priority_queue.py::PriorityQueue.front": "out-of-scope: not used by paths.py (statement-level translation of the queue is property C20)",
     "mouette/utils/priority_queue.py::PriorityQueue.pop": "out-of-scope: alias of get, not used by paths.py (property C20)",
 }
@@ -53,8 +61,12 @@ TRUSTED = [
     "round 5: the construction of the `connectivity` dict of dicts is translated too (connBuild) and proved equal to sinkAdj (adjOf edges) "
     "under the ONLY iteration-order assumption that a Python dict iterates in insertion order and an assignment to an existing key keeps "
     "its position (Model/ConnDict.lean), for meshes whose edges are pairwise different unordered pairs without loops and pairwise "
-    "different targets (duplicated targets: correspondence only)",
-    "heapq abstracted to 'pop returns some pending item of minimum priority' (theorems hold for every such pop)",
+    "different targets (duplicated targets: bridge_connBuild_dups — the dict keeps the distinct targets)",
+    "round 6: the four PriorityQueue use sites of both loops are bound to priority_queue.py as translated by property C20 "
+    "(Generated/C20PQ.lean -> Generated/C09Heap.lean); heapq itself is the binary-heap model Model/BinHeap.lean (C20 compares it pop by "
+    "pop with the real class); the heap invariant is carried by the loop invariant (Lemmas/C09Heap.lean), so heap_dijkstra_optimal, "
+    "source_heap_vertex_set_nearest, source_all_translated_vertex_set have no hypothesis on the queue",
+    "in the theorems of Props/C09 (older, still valid for every tie-breaking): heapq abstracted to 'pop returns some pending item of minimum priority' (theorems hold for every such pop)",
     "the graph handed to the model is the implementation's own mesh.edges (edge extraction itself is C01-C03); the oracle "
     "re-derives the edges independently from faces/cells",
     "float edge lengths are taken as exact rationals; float additions of the implementation compared at 1e-9*scale+1e-12",
